@@ -171,6 +171,13 @@ func (e *env) setup(seed int64) {
 		c.Mint(transfertypes.GetEscrowAddress(port, e.chans[t]), fx)
 	}
 	c.App.IBCTransferKeeper.SetTotalEscrowForDenom(ctx, sdk.NewCoin(fxtypes.DefaultDenom, sdkmath.NewInt(1400)))
+	for t := 0; t < 2; t++ { // base coins of the bridged tokens that left earlier by plain ICS-20 transfers
+		for ch := 0; ch < 2; ch++ {
+			c.Mint(transfertypes.GetEscrowAddress(port, e.chans[ch]), sdk.NewCoin(e.alias[t].Base, sdkmath.NewInt(300)))
+		}
+		lib.Must(c.App.BankKeeper.MintCoins(ctx, "eth", sdk.NewCoins(sdk.NewCoin(e.alias[t].BridgeDenom, sdkmath.NewInt(600)))))
+		c.App.IBCTransferKeeper.SetTotalEscrowForDenom(ctx, sdk.NewCoin(e.alias[t].Base, sdkmath.NewInt(600)))
+	}
 	for t := 0; t < 2; t++ { // voucher pool of the transfer module
 		lib.Must(c.App.BankKeeper.MintCoins(ctx, transfertypes.ModuleName, sdk.NewCoins(sdk.NewCoin(e.vAlias[t], sdkmath.NewInt(4000)))))
 	}
@@ -262,6 +269,19 @@ func (e *env) corpus() [][]opT {
 			{Kind: "recv", Chan: 0, Src: 7, Sender: 0, RawDenom: "uo0", Denom: "own10", Amt: 8, Receiver: "hex", User: 2, Memo: "text"},
 			{Kind: "recv", Chan: 0, Src: 7, Sender: 0, RawDenom: "uo0", Denom: "own10", Amt: 8, Receiver: "hex", User: 2, Memo: "call"},
 			{Kind: "recv", Chan: 0, Src: 7, Sender: 0, RawDenom: "uo0", Denom: "own10", Amt: 8, Receiver: "hex", User: 2, Memo: "none"}},
+		// the base coin of a bridged token leaves by a plain ICS-20 transfer (escrow) and comes home: to a hex receiver it must
+		// arrive as ERC-20 (nothing as bank coin), to a bech32 receiver / with the pair off it is refused; the plain send itself
+		// is refunded as bank coin
+		{{Kind: "sendplain", Chan: 0, User: 0, Denom: "base0", Amt: 120}, {Kind: "sendplain", Chan: 1, User: 1, Denom: "base0", Amt: 30},
+			{Kind: "recv", Chan: 0, Src: 7, Sender: 0, RawDenom: "baseback0", Denom: "base0", Amt: 70, Receiver: "hex", User: 2, Memo: "none"},
+			{Kind: "recv", Chan: 0, Src: 7, Sender: 0, RawDenom: "baseback0", Denom: "base0", Amt: 20, Receiver: "bech32", User: 2, Memo: "none"},
+			{Kind: "recv", Chan: 1, Src: 8, Sender: 1, RawDenom: "baseback0", Denom: "base0", Amt: 25, Receiver: "hex", User: 1, Memo: "call"},
+			{Kind: "recv", Chan: 1, Src: 8, Sender: 1, RawDenom: "baseback1", Denom: "base1", Amt: 9, Receiver: "hex", User: 0, Memo: "text"},
+			{Kind: "toggle", Denom: "alias0"},
+			{Kind: "recv", Chan: 0, Src: 7, Sender: 0, RawDenom: "baseback0", Denom: "base0", Amt: 5, Receiver: "hex", User: 2, Memo: "none"},
+			{Kind: "toggle", Denom: "alias0"},
+			{Kind: "recv", Chan: 0, Src: 7, Sender: 0, RawDenom: "baseback0", Denom: "base0", Amt: 5000, Receiver: "hex", User: 2, Memo: "none"},
+			{Kind: "timeout", Chan: 0, Seq: 1}, {Kind: "ack", Chan: 1, Seq: 11, OK: false}, {Kind: "timeoutraw", Chan: 0, Seq: 1}},
 		// acknowledgement kinds: error acknowledgement with empty text (refund as ERC-20, record removed), result with payload 0
 		{{Kind: "sendevm", Chan: 0, User: 1, Denom: "alias0", Amt: 77}, {Kind: "ack", Chan: 0, Seq: 1, OK: false, AckKind: "errempty"},
 			{Kind: "sendevm", Chan: 0, User: 1, Denom: "alias0", Amt: 33}, {Kind: "ack", Chan: 0, Seq: 2, OK: true, AckKind: "result0"},
@@ -333,7 +353,7 @@ func (e *env) gen(avoidKnown bool) []opT {
 			}
 		case x < 32:
 			ch := r.Intn(2)
-			d := []string{"fx", fmt.Sprintf("alias%d", ch), fmt.Sprintf("own1%d", ch)}[r.Intn(3)]
+			d := []string{"fx", fmt.Sprintf("alias%d", ch), fmt.Sprintf("own1%d", ch), "base0", "base1"}[r.Intn(5)]
 			ops = append(ops, opT{Kind: "sendplain", Chan: ch, User: r.Intn(nUsers), Denom: d, Amt: int64(1 + r.Intn(150))})
 			f := fl{ch, next[ch], false}
 			next[ch]++
@@ -341,7 +361,10 @@ func (e *env) gen(avoidKnown bool) []opT {
 		case x < 62:
 			ch := r.Intn(2)
 			o := opT{Kind: "recv", Chan: ch, Src: 7 + r.Intn(2), Sender: r.Intn(3), User: r.Intn(nUsers), Amt: int64(1 + r.Intn(300))}
-			switch r.Intn(8) {
+			switch r.Intn(10) {
+			case 8, 9:
+				t := r.Intn(2)
+				o.RawDenom, o.Denom = fmt.Sprintf("baseback%d", t), fmt.Sprintf("base%d", t)
 			case 0, 1, 2:
 				o.RawDenom, o.Denom = fmt.Sprintf("uo%d", ch), fmt.Sprintf("own1%d", ch)
 			case 3:
@@ -424,6 +447,10 @@ func (e *env) tokenOf(d string) (tok.Token, int64, bool) {
 		return e.own[0], 10, true
 	case "own11":
 		return e.own[1], 11, true
+	case "base0": // the base coin of bridged token 0 itself (plain ICS-20 transfer, escrowed; comes home unwound)
+		return e.alias[0], 0, true
+	case "base1":
+		return e.alias[1], 1, true
 	}
 	return tok.Token{}, -1, false
 }
@@ -440,6 +467,10 @@ func coqDenom(d string) string {
 		return "(DOwn 10)"
 	case "own11":
 		return "(DOwn 11)"
+	case "base0":
+		return "(DBase 0)"
+	case "base1":
+		return "(DBase 1)"
 	}
 	return "DUnreg"
 }
@@ -462,6 +493,9 @@ func (e *env) watch() []wkey {
 		ks = append(ks, wkey{-4, 1, t}, wkey{-3, 1, t})
 	}
 	ks = append(ks, wkey{-10, 3, 0}, wkey{-11, 3, 0})
+	for _, t := range []int64{0, 1} { // base coins of the bridged tokens in the channel escrows
+		ks = append(ks, wkey{-10, 0, t}, wkey{-11, 0, t})
+	}
 	return ks
 }
 
@@ -653,6 +687,8 @@ func (e *env) history(ops []opT) string {
 				switch {
 				case o.Denom == "fx":
 					pathDenom = fxtypes.DefaultDenom
+				case strings.HasPrefix(o.Denom, "base"):
+					pathDenom = tk.Base
 				case strings.HasPrefix(o.Denom, "alias"):
 					// the voucher that left is the one of the token's own channel (over channel-1 the prefix match of
 					// BaseDenomToBridgeDenom also accepts the channel-11 voucher — observation history only)
@@ -687,6 +723,8 @@ func (e *env) history(ops []opT) string {
 				raw = fmt.Sprintf("%s/channel-%d/%s", port, o.Src, fxtypes.DefaultDenom)
 			} else if raw == "hopfx" {
 				raw = fmt.Sprintf("%s/channel-55/%s", port, fxtypes.DefaultDenom)
+			} else if strings.HasPrefix(raw, "baseback") { // the base coin of a bridged token unwinding out of this channel's escrow
+				raw = fmt.Sprintf("%s/channel-%d/%s", port, o.Src, e.alias[raw[len(raw)-1]-'0'].Base)
 			}
 			receiver, addrOK, isHex := user.Hex().Hex(), true, true
 			switch o.Receiver {
@@ -947,6 +985,16 @@ func (e *env) observations() {
 		note("inbound 50 of a voucher that is its own pair coin: ack success=%v, receiver ERC-20 +%s, voucher bank supply +%s, transfer module account +%s",
 			ok, new(big.Int).Sub(tok.BalanceOf(c, B, v.Erc20, user.Hex()), erc0), c.App.BankKeeper.GetSupply(B, v.Base).Amount.Sub(sup0),
 			tok.Bank(c, B, authtypes.NewModuleAddress(transfertypes.ModuleName), v.Base).Sub(mod0))
+	}
+	// (2b) a voucher that is only an ALIAS of a base token (many-to-one registration) can never be received: ibc-go gives the
+	// voucher bank metadata during the same receive, ManyToOne then takes it for its own base denom and ConvertCoin finds no
+	// pair. Error acknowledgement, nothing credited (the sender is refunded on the source chain): the "credits nothing"
+	// branch of C19 — a liveness matter, not a C19 violation.
+	{
+		pre := c.DumpAll(B)
+		data := transfertypes.NewFungibleTokenPacketData("ua0", "50", remoteSender(0), user.Hex().Hex(), "")
+		ok, _ := tok.CoreRecv(c, B, tok.InPacket(905, "channel-7", port, e.chans[0], data), e.relayer)
+		note("inbound 50 of a voucher registered only as an alias of a base token, hex receiver: ack success=%v, state changed=%v", ok, len(lib.DiffDumps(pre, c.DumpAll(B))) > 0)
 	}
 	// (3) IntermediateSender hashes the packet's SOURCE channel (the remote chain's id): two counterparties that both call their
 	// end channel-7 give the same derived sender for the same sender string. No local account is impersonated (C19's clause).
